@@ -36,7 +36,9 @@ EXPLANATION = (
     ' '
     'R-C02.11 (= R-C03.15) no function changes a local container after handing it to a signature constructor that keeps `param or <fresh>` (the change is lost for an empty container).'
     ' '
-    'R-C02.12 normalize_initial() returns embed=True only under `callable(initial)` (the literal branch of the rebuild overwrites existing values).')
+    'R-C02.12 normalize_initial() returns embed=True only under `callable(initial)` (the literal branch of the rebuild overwrites existing values).'
+    ' '
+    'R-C02.13 normalize_value returns a bound parameter unchanged (bool -> backend literal excepted).')
 NOT_DECIDED = (
     'Equality of row contents before/after for all rows and sequences; '
     'behaviour of renames at the SQL level.')
@@ -677,7 +679,46 @@ def r12_embed_only_for_callables(ctx):
     ctx.floor('returns of normalize_initial', n, 2)
 
 
+def r13_parameters_bound_unchanged(ctx):
+    """Initial values reach the database as *bound parameters*
+    (cursor.execute(sql, params)); normalize_value() is applied to every one
+    of them.  It may translate a bool into the backend's literal and must
+    return everything else as it is: any text transformation (escaping,
+    doubling of %, quoting) is stored literally in every row."""
+    ctx.rule('R-C02.13')
+    p = ctx.program
+    n = 0
+    base = p.cls('db.common', 'BaseEvolutionOperations')
+    for k in [base] + base.all_subclasses():
+        f = k.methods.get('normalize_value')
+        if f is None:
+            continue
+        param = [x for x in f.params if x != 'self'][0]
+        for r in walk_no_nested(f.node):
+            if not isinstance(r, ast.Return) or r.value is None:
+                continue
+            n += 1
+            v = r.value
+            ok = (isinstance(v, ast.Name) and v.id == param) or (
+                isinstance(v, ast.Call) and
+                call_name(v) in ('normalize_bool', 'int', 'bool') and
+                all(isinstance(a, ast.Name) and a.id == param
+                    for a in v.args))
+            if ok:
+                ctx.ok(f, 'parameter returned unchanged / as a bool literal',
+                       r)
+            else:
+                ctx.finding(f, r, '%s returns %s for a bound parameter: the '
+                            'driver stores that text as it is, so every row '
+                            'that receives the initial value holds the '
+                            'transformed string' % (
+                                f.qualname, ' '.join(unparse(v).split())),
+                            key='parameter-transformed')
+    ctx.floor('returns of normalize_value', n, 2)
+
+
 def run(ctx):
+    r13_parameters_bound_unchanged(ctx)
     r12_embed_only_for_callables(ctx)
     r11_no_write_after_handover(ctx)
     r10_initial_sentinel(ctx)
